@@ -109,6 +109,8 @@ def cases(tier, seed):
                 cps = np.round(rng.uniform(0.5, 1.5, ncp) if dv == "chord_cp" else rng.uniform(-1, 1, ncp) * (5 if dv == "twist_cp" else 0.5), 3)
                 val = [float(x) for x in cps]
             out.append(dict(kind="dv_halves", dv=dv, mesh=spec, val=val))
+    for k in range(6 if tier == "quick" else 40):
+        out.append(dict(kind="monotonic", ny=int(rng.integers(2, 12)), full=bool(k % 2), seed=int(rng.integers(1 << 30))))
     return out
 
 
@@ -269,8 +271,53 @@ def run_dv_halves(c, o):
     o.nontrivial = bool(np.abs(ml - mesh).max() > 1e-6)
 
 
+def run_monotonic(c, o):
+    """MonotonicConstraint: reversing a spanwise distribution of a full-span surface reverses the constraint values; a left-half
+    distribution and its right-half mirror image give mirror-image values; the values are <= 0 exactly for distributions that
+    decrease from the root to each tip"""
+    import openmdao.api as om
+    from openaerostruct.geometry.monotonic_constraint import MonotonicConstraint
+
+    rng = np.random.default_rng(c["seed"])
+    ny = c["ny"]
+    if c["full"]:
+        ny = max(3, ny | 1)
+    mesh = M.build(dict(nx=2, ny=ny, half="full" if c["full"] else "left"))
+
+    def run(x, sym, m):
+        p = om.Problem(reports=False)
+        iv = om.IndepVarComp()
+        iv.add_output("x", val=x)
+        p.model.add_subsystem("iv", iv, promotes=["*"])
+        p.model.add_subsystem("mc", MonotonicConstraint(var_name="x", surface=dict(symmetry=sym, mesh=m)), promotes=["*"])
+        p.setup()
+        p.run_model()
+        return np.array(p.get_val("monotonic_x"))
+
+    x = rng.uniform(0.5, 2.0, ny)
+    tags = ["monotonic", "full" if c["full"] else "half"]
+    if c["full"]:
+        a = run(x, False, mesh)
+        b = run(x[::-1].copy(), False, mesh)
+        o.close("monotonic/mirror", b, a[::-1], rtol=1e-13, tags=tags, what="reversed distribution on a full-span surface")
+        root = (ny - 1) // 2
+        xs = np.concatenate([np.sort(x[:root + 1]), np.sort(x[root + 1:])[::-1]])
+        xs[root] = xs.max() + 0.1  # largest at the root, decreasing to both tips
+        o.le("monotonic/sign", run(xs, False, mesh), 0.0, slack=1e-13, tags=tags, what="distribution decreasing from root to both tips must satisfy the constraint")
+    else:
+        a = run(x, True, mesh)
+        xs = np.sort(x)  # left half: tip first, root last -> increasing towards the root
+        o.le("monotonic/sign", run(xs, True, mesh), 0.0, slack=1e-13, tags=tags, what="distribution decreasing from root to tip must satisfy the constraint")
+        o.true("monotonic/sign_violated_detected", bool(np.any(run(xs[::-1].copy(), True, mesh) > 0)) or ny < 2, "a distribution growing towards the tip must violate the constraint", tags=tags)
+        o.close("monotonic/mirror", a, x[:-1] - x[1:], rtol=1e-13, tags=tags)
+    o.nontrivial = True
+
+
 def run_case(c):
     o = Obs()
+    if c["kind"] == "monotonic":
+        run_monotonic(c, o)
+        return o
     {"aero_reflect": run_aero_reflect, "as_reflect": run_as_reflect, "as_symmetric": run_as_symmetric, "halves": run_halves,
      "dv_halves": run_dv_halves}[c["kind"]](c, o)
     return o
